@@ -187,8 +187,9 @@ Inductive case :=
 (* a JavaScript template literal source and what a JavaScript engine (node) evaluates it to
    (None: SyntaxError or a substitution); cross-checks [eval_template] *)
 | CTemplate (src : str) (v : option str)
-(* the module text the real CLI wrote for serverGraphqlOutput, and the value node imports from it *)
-| CModule (plugin : bool) (A : tsdoc) (text : str) (v : option str).
+(* the module text the real CLI wrote for serverGraphqlOutput for the resolved schema A; when node
+   is available: the value node imports from it and that value parsed by the real parser *)
+| CModule (plugin : bool) (A : tsdoc) (text : str) (node_used : bool) (v : option str) (re : option tsdoc).
 
 Definition writers_agree (ops : list wop) (out js : str) : bool :=
   str_eqb (just_run ops) out && str_eqb (js_run ops) js.
@@ -203,7 +204,7 @@ Definition agree (c : case) : bool :=
       tsdoc_same (server_schema plugin A) stripped
       && wops_eqb (print_tsdoc stripped) ops && writers_agree ops out js
   | CTemplate _ _ => true
-  | CModule plugin A text _ => str_eqb (server_module plugin A) text
+  | CModule plugin A text _ _ _ => str_eqb (server_module plugin A) text
   end.
 
 (** the template literal evaluates to a line feed followed by what was written *)
@@ -243,12 +244,15 @@ Definition holds (c : case) : bool :=
       template_ok out js && match re with Some B => tsdoc_eq A B | None => false end
   | COp A _ out js re =>
       template_ok out js && match re with Some B => opdoc_eq A B | None => false end
-  | CServer _ _ stripped _ out js re =>
-      template_ok out js && match re with Some B => tsdoc_eq stripped B | None => false end
+  | CServer plugin A _ _ out js re =>
+      template_ok out js && match re with Some B => tsdoc_eq (spec_server_schema plugin A) B | None => false end
   | CTemplate src v => option_eqb str_eqb (eval_template src) v
-  | CModule _ _ text v =>
-      match v with
-      | Some x => option_eqb str_eqb (module_value text) (Some x)
-      | None => false
-      end
+  | CModule plugin A text node_used v re =>
+      if node_used then
+        match v, re with
+        | Some x, Some B =>
+            option_eqb str_eqb (module_value text) (Some x) && tsdoc_eq (spec_server_schema plugin A) B
+        | _, _ => false
+        end
+      else match module_value text with Some _ => true | None => false end
   end.
